@@ -141,6 +141,11 @@ func ToValidatePeriod(now time.Time, v string, isRelative bool) (string, error) 
 	}
 
 	if isRelative {
+		// the relative form is built from days/hours/minutes/seconds only (no months or years):
+		// refuse what it cannot carry instead of wrapping the day count
+		if d >= 31*24*time.Hour {
+			return "", fmt.Errorf("relative validity period must be shorter than 31 days")
+		}
 		return timeToSMPPTimeFormatRelative(d), nil
 	}
 	return timeToSMPPTimeFormatAbsolute(now, now.Add(d)), nil
